@@ -2854,6 +2854,36 @@ func solve(st *fstate, clauses []Clause, b Bind) solveResult {
 						}
 					}
 				}
+				// a variable defined by an interpreted helper call whose value was recorded: def(v, H(..)) + eq(H(..), V) gives def(v, V)
+				if lhs.K == "var" {
+					for _, key := range keys {
+						d := st.facts[key]
+						if (d.S != "def" && d.S != "defx") || len(d.A) < 2 || d.A[0].Key() != lk || (d.A[1].K != "call" && d.A[1].K != "mcall") {
+							continue
+						}
+						hk := d.A[1].Key()
+						if len(d.A) == 3 {
+							hk = mk("res", d.A[2].S, d.A[1]).Key()
+						}
+						for _, key2 := range keys {
+							fc := st.facts[key2]
+							if fc.S != "eq" || len(fc.A) != 2 {
+								continue
+							}
+							for j := 0; j < 2; j++ {
+								if fc.A[j].Key() != hk && !(len(d.A) == 2 && fc.A[j].Key() == mk("res", "0", d.A[1]).Key()) {
+									continue
+								}
+								v := fc.A[1-j]
+								if len(p.A) == 2 {
+									virts = append(virts, fact("def", lhs, v))
+								} else if v.K == "res" && len(v.A) == 1 {
+									virts = append(virts, fact("def", lhs, v.A[0], mk("const", v.S)))
+								}
+							}
+						}
+					}
+				}
 				if lhs.K == "call" || lhs.K == "mcall" || lhs.K == "res" {
 					if alts == nil {
 						alts = stateAlts(st)
